@@ -72,6 +72,20 @@ var (
 	pcovered   sync.Map // vector key -> true
 )
 
+// SVec is one outcome of Ingestor.StartAsyncSearch decided by AsyncSearch.tla (EmitStart): which replicas
+// of which shard accept the StartAsyncSearch call -> the client gets the id (ok) or the error.
+type SVec struct {
+	NS       int      `json:"ns"`
+	NRep     int      `json:"nrep"`
+	Acc      [][]bool `json:"acc"`
+	Ok       bool     `json:"ok"`
+	ErrShard int      `json:"errShard"` // position (from 1) of the shard whose replicas all refused; 0 = none
+	Calls    [][]int  `json:"calls"`
+	Key      string   `json:"key"`
+}
+
+var svecs = map[int][]SVec{}
+
 func pkey(cls []string) string { return fmt.Sprintf("%d:%s", len(cls), strings.Join(cls, ",")) }
 
 // ---------------------------------------------------------------- clients
@@ -406,23 +420,8 @@ func (w *world) shardStage() (res *mismatch) {
 		return m
 	}
 	syn0 := fmt.Sprint(idsOf(syn))
-	judge := func(tag string, cls []string, resp *search.FetchAsyncSearchResultResponse) *mismatch {
-		v := pvecByKey[pkey(cls)]
-		if v == nil {
-			return &mismatch{"infra", fmt.Sprintf("%s: vector %v is not among the states of AsyncSearch.tla", tag, cls)}
-		}
-		evals.Add(1)
-		if v.Done && !resp.Done {
-			return &mismatch{"shards-not-done", fmt.Sprintf("%s: shards %v: every shard is done but the proxy reports done=false (AsyncSearch.tla: PFetch.done)", tag, cls)}
-		}
-		if !resp.Done {
-			return nil // the property speaks of answers that report done
-		}
-		// PDoneImpliesSyncResult: an answer that reports done is the synchronous search over all shards
-		note := ""
-		if !v.Done {
-			note = " (AsyncSearch.tla: not done for this vector)"
-		}
+	// PDoneImpliesSyncResult: an answer that reports done is the synchronous search over all shards
+	doneIsSync := func(tag string, cls any, note string, resp *search.FetchAsyncSearchResultResponse) *mismatch {
 		got := idsOf(&resp.QPR)
 		if fmt.Sprint(got) != fmt.Sprint(idsOf(syn)) {
 			return &mismatch{"shards-done-differs-ids", fmt.Sprintf("%s: shards %v: proxy reports done%s: IDs got %v sync %v", tag, cls, note, got, idsOf(syn))}
@@ -445,6 +444,24 @@ func (w *world) shardStage() (res *mismatch) {
 			}
 		}
 		return nil
+	}
+	judge := func(tag string, cls []string, resp *search.FetchAsyncSearchResultResponse) *mismatch {
+		v := pvecByKey[pkey(cls)]
+		if v == nil {
+			return &mismatch{"infra", fmt.Sprintf("%s: vector %v is not among the states of AsyncSearch.tla", tag, cls)}
+		}
+		evals.Add(1)
+		if v.Done && !resp.Done {
+			return &mismatch{"shards-not-done", fmt.Sprintf("%s: shards %v: every shard is done but the proxy reports done=false (AsyncSearch.tla: PFetch.done)", tag, cls)}
+		}
+		if !resp.Done {
+			return nil // the property speaks of answers that report done
+		}
+		note := ""
+		if !v.Done {
+			note = " (AsyncSearch.tla: not done for this vector)"
+		}
+		return doneIsSync(tag, cls, note, resp)
 	}
 	live := func(tag string) *mismatch {
 		cls := make([]string, N)
@@ -574,7 +591,7 @@ func (w *world) shardStage() (res *mismatch) {
 	for _, s := range shs {
 		s.cli.replay.Store(nil)
 	}
-	return nil
+	return w.startVectors(shs, ar, syn0, doneIsSync)
 }
 
 // waitStoreDone polls the store's own handler until the request is done there.
@@ -606,4 +623,173 @@ func (s *shard) waitStoreDone(id string) *mismatch {
 		}
 		time.Sleep(500 * time.Microsecond)
 	}
+}
+
+// ---------------------------------------------------------------- the start (AsyncSearch.tla: "the start at the proxy")
+
+// startRep is one replica of a shard as Ingestor.StartAsyncSearch sees it: it accepts the call (the
+// real store behind it starts the search) or refuses it (the store is down / restarting).  A replica
+// has the request only if it got and accepted the call; otherwise it answers NotFound to a fetch.
+type startRep struct {
+	pb.StoreApiClient
+	real   *shardClient
+	accept bool
+	code   codes.Code
+	calls  atomic.Int64
+	saw    sync.Map // search id -> true
+}
+
+func (c *startRep) Search(ctx context.Context, in *pb.SearchRequest, o ...grpc.CallOption) (*pb.SearchResponse, error) {
+	return c.real.Search(ctx, in, o...)
+}
+
+func (c *startRep) StartAsyncSearch(ctx context.Context, in *pb.StartAsyncSearchRequest, o ...grpc.CallOption) (*pb.StartAsyncSearchResponse, error) {
+	c.calls.Add(1)
+	if !c.accept {
+		return nil, status.Error(c.code, "replica refuses the start")
+	}
+	r, err := c.real.e.Client.StartAsyncSearch(ctx, in, o...)
+	if err == nil {
+		c.saw.Store(in.SearchId, true)
+	}
+	return r, err
+}
+
+func (c *startRep) FetchAsyncSearchResult(ctx context.Context, in *pb.FetchAsyncSearchResultRequest, o ...grpc.CallOption) (*pb.FetchAsyncSearchResultResponse, error) {
+	if _, ok := c.saw.Load(in.SearchId); !ok {
+		return nil, status.Error(codes.NotFound, "search not found")
+	}
+	return c.real.e.Client.FetchAsyncSearchResult(ctx, in, o...)
+}
+
+var refuseCodes = []codes.Code{codes.Unavailable, codes.Internal, codes.DeadlineExceeded, codes.ResourceExhausted, codes.Unknown, codes.Aborted}
+
+// startVectors drives the REAL search.Ingestor.StartAsyncSearch over the (finished, running) stores of
+// the shard stage for the start vectors AsyncSearch.tla emits for this number of shards: every vector
+// of accepting / refusing replicas in which some shard has no accepting replica, and a share of the
+// others.  The model decides: the client gets the id iff every shard has a replica that accepted.
+//   - model: error, real: an id  -> the id is followed (fetch until it reports done or is unknown): a
+//     search that was never started on a shard is reported done without that shard's documents
+//   - model: id, real: error     -> a start that every shard accepted is refused
+//   - model: id, real: id        -> the search is fetched through the proxy until done and must equal the
+//     proxy's synchronous Search (the replicas that refused answer NotFound, the holder answers)
+func (w *world) startVectors(shs []*shard, ar search.AsyncRequest, syn0 string,
+	doneIsSync func(string, any, string, *search.FetchAsyncSearchResultResponse) *mismatch) (res *mismatch) {
+	N := len(shs)
+	vecs := svecs[N]
+	if len(vecs) == 0 {
+		return nil
+	}
+	var made []*startRep
+	defer func() {
+		// searches started on a store (also those of a start that ended with the error) finish before the stores go away
+		for _, r := range made {
+			r.saw.Range(func(id, _ any) bool {
+				for _, s := range shs {
+					if s.cli == r.real {
+						if m := s.waitStoreDone(id.(string)); m != nil && res == nil {
+							m.what = "a search started through the proxy: " + m.what
+							res = m
+						}
+					}
+				}
+				return true
+			})
+		}
+	}()
+	okBudget := 10
+	for vi0 := range vecs {
+		v := &vecs[(vi0+w.j.N)%len(vecs)]
+		if v.Ok {
+			if okBudget == 0 {
+				continue
+			}
+			okBudget--
+		}
+		clients := map[string]pb.StoreApiClient{}
+		st := &stores.Stores{}
+		reps := make([][]*startRep, N)
+		for p, s := range shs {
+			var hosts []string
+			for r := 0; r < v.NRep; r++ {
+				h := fmt.Sprintf("s%dr%d", p, r)
+				c := &startRep{real: s.cli, accept: v.Acc[p][r], code: refuseCodes[(vi0+p*3+r+w.j.N)%len(refuseCodes)]}
+				clients[h] = c
+				hosts = append(hosts, h)
+				reps[p] = append(reps[p], c)
+				made = append(made, c)
+			}
+			st.Shards = append(st.Shards, hosts)
+			st.Vers = append(st.Vers, "")
+		}
+		empty := &stores.Stores{Shards: [][]string{}, Vers: []string{}}
+		ing := search.NewIngestor(search.Config{HotStores: st, HotReadStores: empty, ReadStores: empty, WriteStores: empty}, clients)
+		sRun.Add(1)
+		scovered.Store(v.Key, true)
+		start, err := ing.StartAsyncSearch(context.Background(), ar)
+		desc := fmt.Sprintf("%d shards x %d replicas, replicas accepting the StartAsyncSearch call %v", N, v.NRep, v.Acc)
+		fetch := func() (resp search.FetchAsyncSearchResultResponse, err error, pan string) {
+			defer func() {
+				if r := recover(); r != nil {
+					pan = fmt.Sprint(r)
+				}
+			}()
+			resp, err = ing.FetchAsyncSearchResult(context.Background(), search.FetchAsyncSearchResultRequest{ID: start.ID, Size: math.MaxInt32})
+			return
+		}
+		switch {
+		case !v.Ok && err != nil:
+			sErr.Add(1) // refused, as the model says
+		case v.Ok && err != nil:
+			return &mismatch{"shards-start-error", fmt.Sprintf("%s: every shard has a replica that accepts, AsyncSearch.tla: the client gets the id; Ingestor.StartAsyncSearch: %v", desc, err)}
+		case !v.Ok:
+			// the real proxy handed out an id although shard v.ErrShard was never started: what does the client get for it?
+			sFollowed.Add(1)
+			seen := "is not reported done within 3s"
+			for t0 := time.Now(); time.Since(t0) < 3*time.Second; time.Sleep(time.Millisecond) {
+				resp, err, pan := fetch()
+				if pan != "" {
+					seen = "makes FetchAsyncSearchResult panic: " + pan
+					break
+				}
+				if err != nil {
+					seen = "is answered with " + err.Error()
+					break
+				}
+				if resp.Done {
+					if got := fmt.Sprint(idsOf(&resp.QPR)); got != syn0 {
+						seen = fmt.Sprintf("is reported DONE with IDs %s, the synchronous search gives %s", got, syn0)
+					} else {
+						seen = "is reported done (the shard that was not started holds no matching document, the answer happens to be complete)"
+					}
+					break
+				}
+			}
+			return &mismatch{"shards-start-swallowed", fmt.Sprintf("%s: no replica of shard %d (of %d, counted from 1) accepted; AsyncSearch.tla: the client gets the error and no id (PErr); Ingestor.StartAsyncSearch returned id %s without error, and a fetch of that id %s",
+				desc, v.ErrShard, N, start.ID, seen)}
+		default:
+			var last *search.FetchAsyncSearchResultResponse
+			for t0 := time.Now(); ; time.Sleep(500 * time.Microsecond) {
+				resp, err, pan := fetch()
+				if pan != "" {
+					return &mismatch{"shards-fetch-panics", desc + ": proxy FetchAsyncSearchResult panics: " + pan}
+				}
+				if err != nil {
+					return &mismatch{"shards-request-lost", desc + ": the start returned an id, proxy FetchAsyncSearchResult: " + err.Error()}
+				}
+				if resp.Done {
+					last = &resp
+					break
+				}
+				if time.Since(t0) > doneTimeout {
+					return &mismatch{"never-done", desc + ": the start returned an id, the search is not done"}
+				}
+			}
+			evals.Add(1)
+			if m := doneIsSync("start", desc, "", last); m != nil {
+				return m
+			}
+		}
+	}
+	return nil
 }
